@@ -27,3 +27,21 @@ class Slotted:
 
     def __copy__(self):
         return self
+
+
+# --- references that copy.deepcopy does not copy (H4 deepcopy-atomic): each of the four stores below must be found
+import functools
+import weakref
+from weakref import proxy
+
+
+class HoldsWeakly:
+    def __init__(self, engine):
+        self._engine = weakref.ref(engine)  # 1: the copy's reference still points at the original
+        self.peer = proxy(engine)  # 2
+        self.resolve = lambda name: engine.variable(name)  # 3: a closure over the original object
+        self.lookup = functools.partial(engine.variable)  # 4 (a bound method of the original)
+
+    def fine(self):
+        self.count = lambda: 0  # captures nothing: not reported
+        return self
